@@ -155,6 +155,7 @@ def dec_obs(rep, tab, data=None):
     return out
 
 
+NO_RD = {'on': False, 'wiso': [], 'wrrv': [], 'wjol': [], 'wudf': [], 'fiso': [], 'frrv': [], 'fjol': [], 'fudf': []}
 NO_DEC = {'on': False, 'iso': [], 'jol': [], 'fq': [{'ns': 'none', 'p': [], 'x': 0, 'n': 0}]}
 
 
@@ -246,6 +247,7 @@ def build_input(tab, traces):
         elt = o.get('elt') or {'on': False, 'entries': []}
         slim['elt'] = {'on': elt['on'], 'entries': elt['entries']}
         slim['dec'] = o.get('dec', NO_DEC)
+        slim['rd'] = o.get('rd', NO_RD)
         key = json.dumps(slim, sort_keys=True)
         if key not in obs_index:
             obs_list.append(slim)
